@@ -895,6 +895,7 @@ Proof.
     [|apply good_err|apply good_err|exfalso; eapply dfs_initial_fuel; eauto].
   apply dfs_sound in D; [|intros s []]. destruct D as [D1 [_ D3]].
   match goal with |- context [retarget nm (refs tg) (refs ?t)] => set (nt := t) end.
+  destruct (nonempty (t_convs tg) && complex nt); [apply good_err|].
   assert (Hrefs : refs nt = refs nt0) by reflexivity.
   assert (forallb (has (tags st)) (refs tg ++ refs nt) = true) as ->.
   { apply forallb_has. intros r Hr. apply in_app_or in Hr. destruct Hr as [Hr|Hr].
